@@ -219,6 +219,12 @@ func (h) Gen(r *hlib.Rand, tier string, scale int, emit func(string)) {
 		rp("fs-reopen", "dir=fs", "reopen=1", "parts="+g.randParts(n))
 		rp("fs-merge-reopen", "dir=fs", "merge=1", "reopen=1", "parts="+ones(n))
 		rp("backup", "dir="+[]string{"mem", "fs"}[r.Intn(2)], "backup=1", "parts="+g.randParts(n))
+		// a backup that is cut short at a chosen Persist (any segment, or the snapshot: the step is taken modulo the
+		// number of persists of the layout reached), by a write error or by cancellation, then run again; and a
+		// backup whose cancel channel is closed before it starts
+		rp("backup-partial", "dir="+[]string{"mem", "fs"}[r.Intn(2)], "backup=1", "bkfail="+strconv.Itoa(r.Intn(7)), "bkmode="+[]string{"w", "c"}[r.Intn(2)],
+			"parts="+[]string{ones(n), g.randParts(n)}[r.Intn(2)])
+		rp("backup-cancel", "dir="+[]string{"mem", "fs"}[r.Intn(2)], "backup=1", "bkcancel=1", "parts="+g.randParts(n))
 		offs := []string{"0", "1", "2", "7"}
 		if n == 0 || tier == "thorough" {
 			for _, b := range offs {
